@@ -521,6 +521,9 @@ PyObject* base_gemm(PyObject *self, PyObject *args, PyObject *kwrds)
 
   if (m == 0 || n == 0) return Py_BuildValue("");
 
+  if (X_NROWS(C) != m || X_NCOLS(C) != n)
+    PY_ERR_TYPE("dimensions of C do not match the product");
+
   if (ao && convert_num[X_ID(A)](&a, ao, 1, 0)) err_type("alpha");
   if (bo && convert_num[X_ID(A)](&b, bo, 1, 0)) err_type("beta");
 
@@ -782,6 +785,9 @@ static PyObject* base_syrk(PyObject *self, PyObject *args, PyObject *kwrds)
   int n = (trans == 'N') ? X_NROWS(A) : X_NCOLS(A);
   int k = (trans == 'N') ? X_NCOLS(A) : X_NROWS(A);
   if (n == 0) return Py_BuildValue("");
+
+  if (X_NROWS(C) != n || X_NCOLS(C) != n)
+    PY_ERR_TYPE("dimensions of C do not match the product");
 
   if (ao && convert_num[id](&a, ao, 1, 0)) err_type("alpha");
   if (bo && convert_num[id](&b, bo, 1, 0)) err_type("beta");
